@@ -203,6 +203,11 @@ class EquationParser(object):
         bad_variables = get_invalid_variable_names()
         bad_tokens = get_invalid_tokens()
         self.GenerateTokenList()
+        # A variable is defined once (the solver appends one value per definition to its series).
+        defined = [x[0] for x in self.Endogenous + self.Lagged + self.Exogenous]
+        for var in defined:
+            if defined.count(var) > 1:
+                raise ValueError('Variable defined more than once: ' + var)
         for var in self.AllEquations:
             if var in bad_variables:
                 raise NameError(
